@@ -394,7 +394,7 @@ func c23(c *an.Check) {
 	// OWNCHECK: in Send, the local flag "my message occupies the outgoing slot" may only be cleared when the slot is
 	// known to be empty or to hold another message; otherwise an epoch change makes Send forget its own in-flight
 	// message and wait forever for a slot that only it can free.
-	// ownCheck(c) -- enabled once the D6 repair is in place (see DESIGN §9.3)
+	ownCheck(c)
 	// the attach-order rule (shared with C22): a peer that has just attached must evaluate the session state before sleeping
 	c22AttachOrder(c, h)
 	serverLockset(c)
